@@ -170,7 +170,7 @@ func (g *JSGen) tag() int { g.probeTag++; return g.probeTag }
 
 var numLits = []string{"0", "-0", "1", "-1", "2", "3", "0.5", "-1.5", "1e21", "1e-7", "123456789", "2147483647", "2147483648", "-2147483648", "-2147483649",
 	"4294967295", "4294967296", "9007199254740991", "9007199254740993", "1.7976931348623157e308", "5e-324", "0x7fffffff", "0xFFFFFFFF", "0b101", "0o17", "1_000",
-	".5", "5.", "0.1", "0.30000000000000004", "1e3", "1E+3", "255", "256", "65535", "65536", "32", "31", "33", "1e100", "0.000001", "1e-10", "123.456e-7", "0x10000000000000", "0.0", "NaN", "Infinity", "-Infinity", "1/0", "-1/0", "0/0"}
+	".5", "5.", "0.1", "0.30000000000000004", "1e3", "1E+3", "255", "256", "65535", "65536", "32", "31", "33", "1e100", "0.000001", "1e-10", "123.456e-7", "0x10000000000000", "0x2000000000000180", "0x20000000000001", "0x3fffffffffffff80", "0b10000000000000000000000000000000000000000000000000000011", "0o400000000000000000003", "0xFFFFFFFFFFFFF801", "0x1_0000_0000_0000_0801", "0.0", "NaN", "Infinity", "-Infinity", "1/0", "-1/0", "0/0"}
 
 var strLits = []string{`""`, `"a"`, `"abc"`, `"b"`, `"\n"`, `" "`, `"\ud800"`, `"\udc00x"`, `"</script>"`, `"${x}"`, `"'"`, `'"'`, "\"`\"", `"\0"`, `"\x7f"`, `"é"`, `"😀"`, `"\\"`, `"0"`, `"1"`, `" 12 "`, `"1e3"`, `"-0"`, `"null"`, `"undefined"`, `"true"`, `"[object Object]"`, `"a\
 b"`, `'\u{1F600}'`, `"\r\n"`, `"\t"`, `"10"`, `"9"`, `"0x10"`, `"Infinity"`, `"length"`, `"toString"`, `"ab"`, `"ba"`, `"￿"`, `"\u0000"`, `"<!--"`, `"-->"`}
